@@ -72,6 +72,7 @@ type Machine struct {
 	tolerant   int
 	unwind     int
 	mapPerm    bool // explore map iteration orders (C20)
+	mapRev     bool // only two orders per range: as built and reversed
 	envTags    map[*Term]bool
 	natives    map[string]interface{} // per-path engine objects (stores, ctx)
 	symDecides int
@@ -279,8 +280,17 @@ func (m *Machine) permuteMapOrder(keys, vals []Value) {
 	if !m.mapPerm || len(keys) < 2 {
 		return
 	}
-	// choose a permutation by successive choices (selection order)
 	n := len(keys)
+	if m.mapRev {
+		if m.choose(2) == 1 {
+			for i, j := 0, n-1; i < j; i, j = i+1, j-1 {
+				keys[i], keys[j] = keys[j], keys[i]
+				vals[i], vals[j] = vals[j], vals[i]
+			}
+		}
+		return
+	}
+	// choose a permutation by successive choices (selection order)
 	for i := 0; i < n-1; i++ {
 		k := m.choose(n - i)
 		keys[i], keys[i+k] = keys[i+k], keys[i]
